@@ -42,10 +42,12 @@ Definition of_opt {A} (o : option A) : res A := match o with Some a => Ok a | No
 (* what PartialMatchResult.merge copies.  The pinned source copies _bindings and _matched_nodes only;
    the flags say whether _value_bindings / _node_bindings are copied as well.
    `out_fail`: whether _match_node marks the match as failed when the pattern node has more outputs than
-   the graph node (the pinned source only returns False, leaving a truthy MatchResult). *)
-Record flags := mkF { keep_vb : bool; keep_nb : bool; out_fail : bool }.
-Definition flags_as_pinned := mkF false false false.
-Definition flags_fixed := mkF true true true.
+   the graph node (the pinned source only returns False, leaving a truthy MatchResult).
+   `fresh_iter`: whether every output node without op identifier gets its own list of all nodes (the pinned source
+   hands the *same* iterator to all of them; itertools.product drains it for the first). *)
+Record flags := mkF { keep_vb : bool; keep_nb : bool; out_fail : bool; fresh_iter : bool }.
+Definition flags_as_pinned := mkF false false false false.
+Definition flags_fixed := mkF true true true true.
 
 Definition all_b (st : stack) := List.concat (map pb (all_partials st)).
 Definition all_vb (st : stack) := List.concat (map pvb (all_partials st)).
@@ -426,11 +428,11 @@ Fixpoint nodes_with_opid (ns : list hnode) (n : nid) (id : option (string * stri
 (* get_nodes for the 2nd.. output nodes.  Pattern nodes without an op identifier all receive the one
    shared iterator `all_nodes`; itertools.product drains it for the first of them, so the later ones
    get no candidate at all (`used` = the iterator has been consumed). *)
-Fixpoint candidate_lists (ns : list hnode) (g : hgraph) (ids : list (option (string * string))) (used : bool) : list (list nid) :=
+Fixpoint candidate_lists (fl : flags) (ns : list hnode) (g : hgraph) (ids : list (option (string * string))) (used : bool) : list (list nid) :=
   match ids with
   | [] => []
-  | Some i :: t => nodes_with_opid ns 0 (Some i) g :: candidate_lists ns g t used
-  | None :: t => (if used then [] else nodes_with_opid ns 0 None g) :: candidate_lists ns g t true
+  | Some i :: t => nodes_with_opid ns 0 (Some i) g :: candidate_lists fl ns g t used
+  | None :: t => (if used && negb (fresh_iter fl) then [] else nodes_with_opid ns 0 None g) :: candidate_lists fl ns g t true
   end.
 
 (* itertools.product in lexicographic order *)
@@ -458,7 +460,7 @@ Definition run (fl : flags) (p : gpat) (g : hgraph) (root : nid) (removable : bo
   | [_] => try_candidate fl g p removable [root]
   | _ :: others =>
       let ids := map (fun q => match nth_error (gp_nodes p) q with Some np => np_opid np | None => None end) others in
-      first_ok fl g p removable (product ([root] :: candidate_lists (g_nodes g) g ids false))
+      first_ok fl g p removable (product ([root] :: candidate_lists fl (g_nodes g) g ids false))
   end.
 
 (* ------------------------------------------------------------------ GraphPattern.commute *)
